@@ -17,6 +17,10 @@ def check(run):
         # reader maps the document by the documented function (incl. type default and case-fold)
         verify.verify(run, c.E, c.contracts["de:" + n], only=("fields_are_documented_function_of_document",
                                                              "returns_only_with_required_keys", "rejects_only_invalid_documents"))
+    # rt.variant / rt.variants: the forest writer/reader recursion on a fixed small forest with symbolic values
+    for k in ["rt:composeinfo.Variants:0"] + (["rt:composeinfo.Variants:1"] if run.tier == "thorough" else []):
+        verify.verify(run, c.E, c.contracts[k], crosscheck=False)
+    verify.verify(run, c.E, c.contracts["canon:composeinfo.Variant"], crosscheck=False)
     for k in ("ser:common.Header", "de:common.Header", "meth:composeinfo.ComposeInfo.serialize",
               "meth:composeinfo.ComposeInfo.deserialize", "fn:common.MetadataBase.build_file.json_args",
               "ser:composeinfo.VariantPaths", "rt:composeinfo.VariantPaths"):
@@ -27,5 +31,6 @@ def check(run):
                         "random forests of 0-7 variants, depth <= 3, all variant types incl. layered-product, dashed top-level UIDs, "
                         "child arches subset of parent's, 0-4 of the 14 path categories, all compose/release types, labels; %d seeds" % n)
     run.assume("A1: json.dump(indent=4, sort_keys=True) is a function of the JSON value and json.load inverts it on str-keyed JSON values")
-    run.note("proved: flat sections (layout, reader mapping, round trip); the variant forest (Variant/Variants serialize/deserialize recursion) "
-             "is covered by the bounded stand-in only")
+    run.note("proved: flat sections (layout, reader mapping, round trip) for all values; the forest writer/reader recursion on the forest "
+             "T -> C plus a second top-level variant U with symbolic ids/names/types/arch/paths incl. the path normalisations (bounded in SHAPE); "
+             "larger forests, depth 3, dashed top-level UIDs: bounded stand-in")
